@@ -81,6 +81,10 @@ CHECKS = {
    "Status() pollers (bounds on every sample), exact pending comparison at quiescent states, LastPanic membership, Go race detector on simultaneous-panic scenarios",
    "Stable states with all workers pinned and k = 0..capacity tasks accepted behind them (PendingTask must equal k exactly), overflow with timeouts, panic mixes of five dynamic value types on every lane, one gated panicking task per worker released at once; 1-4 goroutines poll Status() throughout. After panics every other accepted task must have started exactly once, the lane keeps its 2 x laneSize goroutines, and LastPanic == one of the raised values. The simultaneous-panic scenarios run under -race without the hook at GOMAXPROCS 2/4/16.",
    "Race reports are schedule dependent; the scenarios are repeated (40 quick / 600 thorough per GOMAXPROCS value).", "§3 C14"),
+ "C12": ("ipfilterconc", "exploration",
+   "interval checker over logically time-stamped lookups (stable / never-present / owned ranges, match-all on-intervals) plus per-writer sequential models; Go race detector and runtime fatal errors on the same workload",
+   "Trials with 2-4 writers (disjoint owned /8s, 150-300 ops each with nested and repeated prefixes, probing their own range after every op), 2-8 readers and an optional 0.0.0.0/0 toggler on a filter pre-loaded with 32 stable ranges, so that the 257th add (list-to-map migration) happens while lookups are running. A stable address must always be found, a never-added address never (unless the call's logical interval meets a match-all interval), a writer sees its own updates, and the final filter equals the per-writer models. 180 (quick) / 30 000 (thorough) plain trials at GOMAXPROCS 2/4/16 plus -race trials.",
+   "Not linearizability: the statement is regular-register-like, and the checker encodes exactly that. Evidence reports how many lookups overlapped a write and the migrating Add.", "§3 C12"),
 }
 BUILT = set(CHECKS)
 
